@@ -370,8 +370,7 @@ impl Check for C06 {
     }
 
     fn preflight(&self, cfg: &Cfg) -> Result<(), String> {
-        let root = vcore::out_root().join("work").join("c06");
-        let _ = std::fs::remove_dir_all(&root);
+        let root = oracle::work_root();
         std::fs::create_dir_all(&root).map_err(|e| format!("cannot create {}: {e}", root.display()))?;
         selftest(cfg)
     }
@@ -398,12 +397,8 @@ impl Check for C06 {
             }
             let _ = std::fs::write(path, out);
         }
-        let root = vcore::out_root().join("work").join("c06");
-        if let Ok(rd) = std::fs::read_dir(&root) {
-            for e in rd.flatten() {
-                let _ = std::fs::remove_dir_all(e.path());
-            }
-        }
+        // module trees left behind by workers of this run that died
+        let _ = std::fs::remove_dir_all(oracle::work_root().join(format!("run{}", std::process::id())));
     }
 }
 
@@ -420,7 +415,7 @@ fn selftest(cfg: &Cfg) -> Result<(), String> {
             last = t.end;
         }
     }
-    if p.l3.seeds.len() < 40 {
+    if p.l3.seeds.len() < cfg.tier.pick(30, 60) {
         return Err(format!("only {} seeds found (repository scripts missing?)", p.l3.seeds.len()));
     }
     // random access: first and last index of every layer decode
@@ -446,6 +441,9 @@ fn selftest(cfg: &Cfg) -> Result<(), String> {
         (f("fn f() -> i32 { Option.None.x }", "path3"), "path3"),
         (known::may_die("fn f() { let w = []; w.push(w); }"), "may_die push"),
         (known::may_die("record A { x: A? }"), "may_die record"),
+        (f("record A { x: { f: A }? }", "type_cycle_via_argument"), "{ f: A }?"),
+        (f("record A[T] { x: A[i32]? }", "type_cycle_via_argument"), "A[i32]?"),
+        (known::may_die("const C: i32 = 1 / 0;"), "may_die const"),
     ];
     for (ok, what) in checks {
         if !ok {
